@@ -184,6 +184,10 @@ structure File where
   enums : List Enum
   services : List Service
   extensions : List Field
+  /-- bufimage ImageFile.IsImport(): the file is in the image only because a target file imports
+      it (`--path`, a dependency module).  No rule handler reads it (bufcheckserverutil/breaking.go);
+      only the client's exclude-imports filter does (bufcheck/client.go ignoreFileLocation). -/
+  isImport : Bool := false
 deriving Repr, Inhabited
 
 abbrev Schema := List File
